@@ -3,6 +3,7 @@ open Ndn Ndn.Driver Ndn.C03 Ndn.C03.Text Ndn.C03.Drv
 
 structure St where
   last : Option Mk := none
+  mkExpected : Option String := none   -- the model's prediction for the make op (compared at `cmp`)
   nbName : Option String := none     -- op argument of the last nb
   cbComp : Option String := none     -- op argument of the last cb
   blob : Option Bytes := none        -- the implementation's output of the last nb / cb
@@ -42,12 +43,16 @@ def stepC03 (st : St) (op : String) (got : String) : StepResult St :=
   | ["new"] => { st := {}, expected := some "ok" }
   | "mkd" :: _ =>
     let r := runMkd f got
-    { st := { st with last := r.built }, expected := some r.expected, spec := r.spec, cov := r.cov,
+    { st := { st with last := r.built, mkExpected := some r.expected }, expected := none, spec := r.spec, cov := r.cov,
       nontrivial := (r.built.map (·.nontrivial)).getD false }
   | "mki" :: _ =>
     let r := runMki f got
-    { st := { st with last := r.built }, expected := some r.expected, spec := r.spec, cov := r.cov,
+    { st := { st with last := r.built, mkExpected := some r.expected }, expected := none, spec := r.spec, cov := r.cov,
       nontrivial := (r.built.map (·.nontrivial)).getD false }
+  | ["cmp"] =>
+    match st.mkExpected with
+    | none => { st := st, expected := some "skip" }
+    | some e => { st := st, expected := some e }
   | ["rd", cuts] =>
     match st.last with
     | none => { st := st, expected := some "skip" }
